@@ -378,7 +378,19 @@ def step (s : St) (w : List String) : St × String :=
   | some out => (s, out)
   | none =>
   match w with
+  | ["updzw", k, v0, v, wt] =>
+    match parseKey k, unhex v0, unhex v with
+    | some k, some v0, some v =>
+      let (t1, r1) := update Hh s.t k v0 0
+      match r1 with
+      | .err e => ({ s with t := t1 }, errStr e)
+      | .ok _ =>
+        let mid := t1.weight
+        let (t2, r2) := update Hh t1 k v wt.toNat!
+        ({ s with t := t2 }, resStr r2 (fun _ => s!"ok {mid}"))
+    | _, _, _ => (s, "bad-op")
   | ["upd", k, v, wt] =>
+    if wt.toNat! = 0 ∧ v ≠ "-" ∧ v ≠ "" then (s, "zeroweight") else
     match parseKey k, unhex v with
     | some k, some v =>
       let (t', r) := update Hh s.t k v wt.toNat!
@@ -531,6 +543,7 @@ def step (s : St) (w : List String) : St × String :=
       match s.part with
       | none => (s, "skip")
       | some p =>
+        if op = "mupd" ∧ (w.getD 3 "1").toNat! = 0 ∧ (w.getD 2 "-") ≠ "-" then (s, "zeroweight") else
         let (t1, rs) := mirrorOp s.t w
         let (p1, rp) := mirrorOp p w
         let (t2, ss) := stateStr t1
